@@ -643,7 +643,7 @@ def _c_eval(body, env):
             v = {'||': lambda a, b_: int(bool(a) or bool(b_)), '&&': lambda a, b_: int(bool(a) and bool(b_)), '|': lambda a, b_: a | b_, '^': lambda a, b_: a ^ b_,
                  '&': lambda a, b_: a & b_, '==': lambda a, b_: int(a == b_), '!=': lambda a, b_: int(a != b_), '<': lambda a, b_: int(a < b_), '<=': lambda a, b_: int(a <= b_),
                  '>': lambda a, b_: int(a > b_), '>=': lambda a, b_: int(a >= b_), '<<': lambda a, b_: a << b_, '>>': lambda a, b_: a >> b_, '+': lambda a, b_: a + b_,
-                 '-': lambda a, b_: a - b_, '*': lambda a, b_: a * b_, '/': lambda a, b_: int(a / b_) if b_ else 0, '%': lambda a, b_: a % b_ if b_ else 0}[op](v, r)
+                 '-': lambda a, b_: a - b_, '*': lambda a, b_: a * b_, '/': lambda a, b_: (abs(a) // abs(b_)) * (1 if (a >= 0) == (b_ >= 0) else -1) if b_ else 0, '%': lambda a, b_: (abs(a) % abs(b_)) * (1 if a >= 0 else -1) if b_ else 0}[op](v, r)
         return v
     try:
         v = expr(0)
